@@ -28,9 +28,11 @@ pub fn gen_cfg(rng: &mut Rng) -> Cfg {
     let nmt = if rng.chance(1, 40) { rng.pick(&[255usize, 256, 257, 512]) } else if rng.chance(1, 4) { rng.pick(&[0usize, 1, 29, 30]) } else { rng.below(31) as usize };
     let wide = rng.chance(1, 4);
     let nv = if rng.chance(1, 40) { rng.pick(&[0usize, 255, 256, 257, 512]) } else { 1 + rng.below(if wide { 16 } else { 4 }) as usize };
+    let mut mts = rng.bytes(nmt);
+    if rng.chance(1, 5) { ordered(rng, &mut mts); }
     Cfg {
         addr: rng.addr(),
-        msg_types: rng.bytes(nmt),
+        msg_types: mts,
         vendor_ids: (0..nv)
             .map(|_| ((rng.below(2)) as u8, rng.c32(), rng.c16()))
             .collect(),
@@ -79,6 +81,13 @@ pub fn gen_call(rng: &mut Rng, key: (bool, u32), refuse: bool, total: Option<usi
             let b = &mut lists[1];
             for (i, x) in pre.iter().enumerate() { if i < b.len() { b[i] = *x; } }
         }
+        // a body that is itself a complete frame for the same hop (a packet tunnelled in a packet)
+        if rng.chance(1, 8) && total.is_none() {
+            let (own, _, _) = crate::exec::hint();
+            let k = rng.below(12) as usize; let inner = rng.bytes(k);
+            let ty = match id { 31 => 0x7E, 33 => 0x7F, 32 => mt as u8, _ => 0 };
+            lists[1] = tunnel_frame(rng, own, dest as u8, ty, &inner);
+        }
         return Call { req, id, nums, lists };
     }
     if req {
@@ -103,6 +112,18 @@ pub fn gen_call(rng: &mut Rng, key: (bool, u32), refuse: bool, total: Option<usi
                 if n >= 2 && rng.chance(1, 3) {
                     let ty = rng.pick(&[3u8, 1, 3, 0x43, 2]); let addr = rng.byte(); let mut first = rng.below(40) as u8;
                     for e in lists.iter_mut() { let sz = 1 + rng.below(6) as u8; *e = vec![ty, sz, first, addr]; first = first.wrapping_add(sz); }
+                    return Call { req, id, nums, lists };
+                }
+                // entries that describe the parties themselves: the sender (its address, the EID it holds), the destination
+                if n >= 1 && rng.chance(1, 4) {
+                    let (own, er, es) = crate::exec::hint();
+                    let k = 1 + rng.below(n.min(3) as u64) as usize;
+                    for j in 0..k {
+                        let i = rng.below(n as u64) as usize;
+                        let phys = if j % 2 == 0 { own } else { dest as u8 };
+                        let x = 0x08 + (rng.below(0xF0) as u8); let eid = rng.pick(&[er, es, own, dest as u8, x]);
+                        let ty = rng.pick(&[0u8, 2, 0, 2, 1, 3]); let sz = if rng.chance(3, 4) { 1 } else { rng.cbyte() }; lists[i] = vec![ty, sz, eid, phys];
+                    }
                     return Call { req, id, nums, lists };
                 }
                 // a contiguous run of entries of DIFFERENT kinds behind one address: a bridge followed by its pool, single
@@ -168,6 +189,14 @@ pub fn gen_call(rng: &mut Rng, key: (bool, u32), refuse: bool, total: Option<usi
                     let b = &mut lists[0];
                     for (i, x) in pre.iter().enumerate() { if i < b.len() { b[i] = *x; } }
                 }
+                // the message is itself a complete frame for the same hop: the output of the same call fed back in
+                if rng.chance(1, 8) && total.is_none() && fmt < 2 {
+                    let (own, _, _) = crate::exec::hint();
+                    let by = data.to_be_bytes();
+                    let mut inner: Vec<u8> = if fmt == 0 { by[2..].to_vec() } else { by.to_vec() };
+                    let k = rng.below(10) as usize; inner.extend(rng.bytes(k));
+                    lists[0] = tunnel_frame(rng, own, dest as u8, if fmt == 0 { 0x7E } else { 0x7F }, &inner);
+                }
             }
             _ => {}
         }
@@ -185,6 +214,7 @@ pub fn gen_call(rng: &mut Rng, key: (bool, u32), refuse: bool, total: Option<usi
                 nums = vec![cc, dest];
                 let n = if refuse { 31 + rng.below(10) as usize } else if rng.chance(1, 3) { rng.pick(&[0usize, 1, 29, 30]) } else { rng.below(31) as usize };
                 lists = vec![rng.bytes(n)];
+                if rng.chance(1, 4) { ordered(rng, &mut lists[0]); }
             }
             6 => {
                 nums = vec![cc, dest, b(rng)];
@@ -195,6 +225,26 @@ pub fn gen_call(rng: &mut Rng, key: (bool, u32), refuse: bool, total: Option<usi
         }
     }
     Call { req, id, nums, lists }
+}
+
+
+/// a complete SMBus MCTP frame from this context (address `own`) to `dest`, carrying message type `ty` and `inner`:
+/// what a message body looks like when one packet is tunnelled inside another for the same hop
+pub fn tunnel_frame(rng: &mut Rng, own: u8, dest: u8, ty: u8, inner: &[u8]) -> Vec<u8> {
+    let mut f = build_packet(dest & 0x7F, own & 0x7F, 1, dest, own, 0xC8, ty, inner);
+    if rng.chance(1, 4) { let l = f.len(); f[l - 1] = rng.byte(); }      // with or without a correct inner PEC
+    f
+}
+
+/// give a byte list an internal order: ascending, descending (strictly, when `strict`), constant, or an arithmetic run
+pub fn ordered(rng: &mut Rng, l: &mut Vec<u8>) {
+    match rng.below(5) {
+        0 => l.sort(),
+        1 => { l.sort(); l.reverse(); }
+        2 => { let n = l.len(); let start = rng.byte(); *l = (0..n).map(|i| start.wrapping_sub((i as u8).wrapping_mul(3))).collect(); }   // strictly descending run
+        3 => { let n = l.len(); let start = rng.below(100) as u8; *l = (0..n).map(|i| start.wrapping_add(i as u8)).collect(); }             // strictly ascending run
+        _ => { let x = rng.cbyte(); for y in l.iter_mut() { *y = x; } }
+    }
 }
 
 /// Does encoder `key` have documented-invalid arguments?
